@@ -391,6 +391,13 @@ def c10_strings_gen(r, tier):
     docs = [{"a": {"1": "s", 1: "i", "b": [10, 20]}, "1": [5, 6], 1: {"1.5": "fs", 1.5: "f"}, "1.5": 7, 1.5: {"a": 0}},
             [[1, 2], {"0": "z", 0: "i"}, "x"], {"x y": 1, "": {"a": 2}}]
     yield {"segs": [], "delim": "/", "doc": enc(docs[0])}
+    # segments that Python reads as numbers although they do not look like plain digits (what `int()` / `float()` accept)
+    odd = {"limits": {float("inf"): 5, "inf": 6, " 1": "t", 1: "i", "+1": "p", 10: "ten", "1_0": "u", 0.5: "h", ".5": "hs", -float("inf"): 0},
+           "rows": ["r0", "r1", "r2"]}
+    for seg in ("inf", "Infinity", "-inf", "+inf", " 1", "1 ", "+1", "1_0", ".5", "5.", "1e0", "0x1", "٣"):
+        yield {"segs": ["limits", seg], "delim": "/", "doc": enc(odd)}
+        yield {"segs": ["rows", seg], "delim": "/", "doc": enc(odd)}
+        yield {"segs": [seg], "delim": "/", "doc": enc({seg: 1, "k": 2})}
     for _ in range(n):
         segs = [r.choice(["a", "b", "1", "0", "1.5", "x y", "-1", "1e0"]) for _ in range(r.randint(1, 3))]
         yield {"segs": segs, "delim": r.choice(["/", "/", ".", "::"]) if not any("." in s for s in segs) else "/",
@@ -658,6 +665,23 @@ def c12_gen(r, tier):
              {"parts": [{"$p": "mol", "key": "a", "index": 0}]}, {"parts": [{"$prim": "a"}, {"$prim": 0}, {"$p": "map"}, {"$p": "list"}]}]
     for p in fixed:
         yield {"path": p, "docs": []}
+    # a combination of two conditions of the same class and callable (only the arguments differ): both survive the round trip
+    both = lambda op, a, b: {"$c": op, "l": a, "r": b}
+    kne = both("and", G.leaf("Key", "not_equal_to", "a"), G.leaf("Key", "not_equal_to", "b"))
+    vne = both("and", G.leaf("Value", "not_equal_to", 1), G.leaf("Value", "not_equal_to", 2))
+    ine = both("and", G.leaf("Index", "not_equal_to", 0), G.leaf("Index", "not_equal_to", 2))
+    vor = both("or", G.leaf("Value", "equal_to", 1), G.leaf("Value", "equal_to", 3))
+    vin = both("and", G.leaf("Value", "is_instance", {"$type": "int"}), G.leaf("Value", "is_instance", {"$type": "bool"}))
+    dd = [enc({"cfg": {"a": 1, "b": 2, "c": 3}, "xs": [1, 2, 3, True]}), enc([{"a": 1, "c": 2}, [1, 2, 3]])]
+    for parts in ([{"$prim": "cfg"}, {"$p": "map", "key": kne}], [{"$prim": "cfg"}, {"$p": "map", "value": vne}],
+                  [{"$prim": "xs"}, {"$p": "list", "index": ine}], [{"$prim": "xs"}, {"$p": "list", "value": vor}],
+                  [{"$prim": "xs"}, {"$p": "list", "value": vin}], [{"$p": "mol"}, {"$p": "mol", "value": vne}],
+                  [{"$p": "mol"}, {"$p": "map", "key": kne, "value": vne}]):
+        w = {"path": {"parts": copy.deepcopy(parts)}, "docs": dd}
+        yield w
+        pj = [i if "$prim" in i else _json_part(copy.deepcopy(i)) for i in parts]
+        if all(i is not None for i in pj):
+            yield {"path": {"parts": pj}, "docs": dd, "from_specs": path_part_specs({"parts": pj}, r)}
     for _ in range(n):
         d = G.gen_doc(r, 3)
         p = G.gen_path(r, 3, well_typed=True, prim_p=0.35)
@@ -765,6 +789,19 @@ def c13_gen(r, tier):
     yield {"schema": {"rules": [top]}, "add": [{"schema": {"rules": [sub]}, "root": {"parts": [{"$prim": "cfg"}]}},
                                                {"schema": {"rules": [sub]}, "root": {"parts": [{"$prim": "cfg"}]}}],
            "docs": [enc({"cfg": {"max": "3"}}), enc({"cfg": {"max": "x"}})]}
+    # rules of one schema whose paths differ only in the type of a numerically equal part (1 / 1.0 / True, 0 / 0.0 / False):
+    # each rule is rebuilt with its own path
+    gt = G.leaf("Value", "greater_than", 5)
+    P = lambda *parts: {"parts": [{"$prim": q} for q in parts]}
+    for paths, docs in (
+            ([P("a", 1), P("a", 1.0)], [{"a": ["x", "7"]}, {"a": {1.0: "9", "k": 0}}]),
+            ([P("a", 1.0), P("a", 1)], [{"a": ["x", "7"]}, {"a": [1, 2]}]),
+            ([P("a", True), P("a", 1), P("a", 1.0)], [{"a": [0, 9]}, {"a": {True: 9}}]),
+            ([P(0), P(0.0), P(False)], [[9, 1], {0.0: 9}]),
+            ([P("b", 0, "c"), P("b", 0.0, "c")], [{"b": [{"c": 9}]}, {"b": {0.0: {"c": 1}}}])):
+        for order in (paths, paths[::-1]):
+            rules = [{"path": copy.deepcopy(pp), "cond": gt, "cast": {"str": "int"}} for pp in order]
+            yield {"schema": {"rules": rules}, "docs": [enc(x) for x in docs]}
     for _ in range(n):
         d = G.gen_doc(r, 3)
         rules = []
@@ -998,6 +1035,13 @@ def c16_unchanged(w):
              "parts": lambda s: V.d.DataPath.from_part_specs(*s), "rule": V.r.Rule.from_spec,
              "rule-json": V.r.Rule.from_json_like, "rules": V.s.Schema.init_rules,
              "schema-json": V.s.Schema.from_json_like}[what]
+    for src, dst in w.get("alias", []):
+        # one object used at two places of the spec (what a YAML anchor / alias, or a caller re-using a list, gives)
+        def at(o, path):
+            for k in path:
+                o = o[k]
+            return o
+        at(spec, dst[:-1])[dst[-1]] = at(spec, src)
     before = copy.deepcopy(spec)
     try:
         o1 = parse(spec)
@@ -1025,6 +1069,18 @@ def c16_gen(r, tier):
     yield {"what": "condition", "tag": "path-in-list", "spec": {"value.in": [{"path": ["a"]}, 7]}}
     yield {"what": "condition", "tag": "path-in-kwargs", "spec": {"value.in_range": {"lower": {"path": ["a"]}, "upper": 9}}}
     yield {"what": "path", "tag": "escaped", "spec": {"\\path": [1]}}
+    # one list / mapping object at two places of a spec, with strings the parser normalises
+    lines = ["  The number of cores to use.\n", "See `resources`.\n"]
+    rs = {"path": ["resources", {"type": "map_value", "key.equal_to": "num_cores"}], "condition": {"value.dtype.equal_to": "int"},
+          "cast": {"str": "int"}, "doc": {"description": list(lines), "examples": list(lines)}}
+    for what in ("rule", "rule-json"):
+        yield {"what": what, "tag": "shared-doc-list", "spec": copy.deepcopy(rs), "alias": [[["doc", "description"], ["doc", "examples"]]]}
+    for what in ("rules", "schema-json"):
+        yield {"what": what, "tag": "shared-doc-list", "spec": [copy.deepcopy(rs)], "alias": [[[0, "doc", "description"], [0, "doc", "examples"]]]}
+        yield {"what": what, "tag": "shared-rule-parts", "spec": [copy.deepcopy(rs), copy.deepcopy(rs)], "alias": [[[0, "path"], [1, "path"]], [[0, "doc"], [1, "doc"]]]}
+    pm = {"type": "map_value", "key": {"key.in": ["a", " b"]}}
+    yield {"what": "parts", "tag": "shared-part-spec", "spec": ["x", copy.deepcopy(pm), copy.deepcopy(pm)], "alias": [[[1], [2]]]}
+    yield {"what": "condition", "tag": "shared-operand", "spec": {"and": [{"value.in": [1, 2]}, {"value.in": [1, 2]}]}, "alias": [[["and", 0], ["and", 1]]]}
     for _ in range(n):
         d = G.gen_doc(r, 2)
         c = _json_args_only(G.gen_cond(r, r.randint(0, 2), ("value",), well_typed=True))
@@ -1110,6 +1166,21 @@ def c17_gen(r, tier):
         rule = {"path": {"parts": [{"$prim": at}]}, "cond": G.leaf("Value", "equal_to", arg)}
         yield {"rule": rule, "doc": enc(doc), "tag": tag}
         yield {"rule": {"path": {"parts": [{"$prim": at}]}, "cond": G.leaf("Value", "not_equal_to", arg)}, "doc": enc(doc), "tag": tag}
+    # argument paths whose parts do not address anything the way plain indexing would: a negative index selects nothing
+    # (the argument is None), an integer part is an index in a list and a key in a mapping, a missing key gives None
+    for doc, at, parts, tag in (
+            ({"xs": [1, 2, None], "b": None}, "b", ["xs", -1], "negative-index-argument"),
+            ({"xs": [1, 2, 3], "b": 3}, "b", ["xs", -1], "negative-index-argument"),
+            ({"xs": [[5, 6]], "b": 6}, "b", ["xs", 0, -1], "negative-index-argument"),
+            ({"xs": {-1: "m", 0: "z"}, "b": "m"}, "b", ["xs", -1], "negative-key-argument"),
+            ({"xs": [1, 2, 3], "b": None}, "b", ["xs", 7], "absent-argument"),
+            ({"xs": {"k": 1}, "b": None}, "b", ["xs", "q"], "absent-argument"),
+            ({"xs": "abc", "b": "c"}, "b", ["xs", -1], "string-is-a-leaf"),
+            ({"xs": "abc", "b": None}, "b", ["xs", 0], "string-is-a-leaf")):
+        arg = {"$path": {"parts": [{"$prim": q} for q in parts]}}
+        for m in ("equal_to", "not_equal_to"):
+            yield {"rule": {"path": {"parts": [{"$prim": at}]}, "cond": G.leaf("Value", m, arg)}, "doc": enc(doc), "tag": tag}
+        yield {"rule": {"path": {"parts": [{"$prim": at}]}, "cond": G.leaf("Value", "in_", [arg, 99])}, "doc": enc(doc), "tag": tag}
     for _ in range(n):
         d = G.gen_doc(r, 3)
         x = r.random()
